@@ -288,6 +288,34 @@ func runC02(c *core.Ctx) {
 			}
 		}
 	}
+	// tiny windows of very large parents (several hundred thousand samples):
+	// tails, and short windows in the middle with a long capacity behind them
+	for ti, t := range dyn.ElemTypes() {
+		if ti%4 != 2 && t.Name != "int16" {
+			continue
+		}
+		gi++
+		if !c.Mine(gi) {
+			continue
+		}
+		ch := 1 + ti%3
+		k := 300007 / ch
+		caseID := fmt.Sprintf("huge/%s/C%d/K%d", t.Name, ch, k)
+		if !c.Want(caseID) {
+			continue
+		}
+		w := mon.NewWorld(t)
+		b := t.Alloc(signal.Allocator{Channels: ch, Length: k - 5, Capacity: k})
+		stampAll(w, b)
+		root := w.Adopt(b, "root")
+		r := &c02run{c: c, t: t, w: w, inst: "Slice[" + t.Name + "]", caseID: caseID, depth: 2,
+			root: map[string]any{"channels": ch, "length": k - 5, "capacity": k}}
+		for _, se := range [][2]int{{k - 8, k - 6}, {k - 2, k}, {k / 2, k/2 + 3}, {0, 2}, {k - 40, k - 40}, {7, k - 9}} {
+			r.try(root, se[0], se[1], "root", r.depth) // no nested enumeration below these
+		}
+		c.Obs("tiny_windows_of_parents_with_300000_samples", 6)
+	}
+	c.Floor("tiny_windows_of_parents_with_300000_samples", 6)
 	// parents that reached their shape through a growing Append: the full
 	// (start,end) sweep, whatever capacity the growth produced
 	for _, t := range dyn.ElemTypes() {
